@@ -36,6 +36,9 @@ type tracer struct {
 	fn      string // name of the executing function (soft rule for the pause lookup)
 	faultAt int    // index of the call that must fail, -1 = none
 	letters []byte // one letter per counted call, in order
+	// hook, when set, is called at EVERY dependency call (counted or not, tracing or not) from inside the executing
+	// function: the concurrency harness uses it to look at the function's lock from within the execution
+	hook func(letter byte)
 }
 
 func newTracer() *tracer {
@@ -57,6 +60,9 @@ func (t *tracer) end() {
 
 // hit records one counted dependency call; a non-nil result means "fail instead of acting".
 func (t *tracer) hit(letter byte) error {
+	if t.hook != nil {
+		t.hook(letter)
+	}
 	if !t.active {
 		return nil
 	}
@@ -168,6 +174,8 @@ func (c *coordinator) IsInterfaceNil() bool                  { return c == nil }
 
 type epochNotifier struct {
 	handlers []vmcommon.EpochSubscriberHandler
+	// onRegister: when set, a handler is told this epoch the moment it registers (as the node's notifier does)
+	onRegister *uint32
 }
 
 // RegisterNotifyHandler only registers (literal PROTOCOL reading: handlers hear from the notifier
@@ -178,6 +186,9 @@ func (n *epochNotifier) RegisterNotifyHandler(h vmcommon.EpochSubscriberHandler)
 		return
 	}
 	n.handlers = append(n.handlers, h)
+	if n.onRegister != nil {
+		h.EpochConfirmed(*n.onRegister, 0)
+	}
 }
 
 func (n *epochNotifier) confirm(epoch uint32, timestamp uint64) {
